@@ -7,6 +7,8 @@ for p in sorted(glob.glob(os.path.join(V, "seeded", "*", "meta.json"))):
     m = json.load(open(p))
     name = os.path.basename(os.path.dirname(p))
     det = ", ".join(m.get("detected_by", [])) or "**not detected**"
+    if m.get("status") == "superseded":
+        det += " (before the repair; now superseded — the repaired tree no longer breaks under this change)"
     note = m.get("note", "")
     rows.append("| `%s` | %s | %s | %s | %s%s |" % (name, m["property"], m["breaks"].replace("|", "/"), m["needs_to_manifest"].replace("|", "/"), det, (" — " + note) if note else ""))
 block = "| seeded change (seeded/…) | property | what it breaks | what it needs to manifest | caught by |\n|---|---|---|---|---|\n" + "\n".join(rows) + "\n"
